@@ -75,6 +75,19 @@ func c03Oracle(r *SeqRun) []Viol {
 			}
 		}
 	}
+	if allIdle(post.ClientState) && len(post.SetBufItems) == 0 {
+		// RemainingCost() is MaxCost minus the costs accounted for the RESIDENT keys: a key that
+		// is stored but no longer accounted makes the reported room a fiction
+		acc := map[uint64]bool{}
+		for _, c := range post.Costs {
+			acc[c.Key] = true
+		}
+		for _, e := range post.Store {
+			if !acc[e.Key] {
+				out = append(out, Viol{Key: "C03/resident-key-not-accounted", What: fmt.Sprintf("key %d (value %d) is resident but its cost is not accounted: RemainingCost() overstates the room", e.Key, e.Value)})
+			}
+		}
+	}
 	if !c03Taint(r.Events) && allIdle(post.ClientState) && len(post.SetBufItems) == 0 {
 		if rem, ok := r.Probe["remaining"]; ok && rem < 0 {
 			out = append(out, Viol{Key: "C03/negative-remaining-cost-when-drained", What: fmt.Sprintf("RemainingCost()=%d with the write buffer drained, although no overwrite raised a resident key's cost and MaxCost was not lowered", rem)})
@@ -157,13 +170,72 @@ func c03LeanSpec(depth int, maxCost int64) *SeqSpec {
 	return spec
 }
 
+// c03FromC13 reuses a C13 specification (alphabet, configuration) under the C03 oracle.
+func c03FromC13(s *SeqSpec) *SeqSpec {
+	s.Oracle = c03Oracle
+	s.Abstract = func(r *SeqRun, ren func(int64) int64) string { return fmt.Sprint(c03Taint(r.Events)) }
+	s.Probe = func(c seqCache, r *SeqRun) {
+		r.Probe["remaining"] = c.Remaining()
+		r.Probe["maxcost"] = c.MaxCost()
+	}
+	return s
+}
+
+// c03Jobs: preemptive part — the expiry sweep racing an overwrite of the expiring key, judged at
+// the drained state after the epilogue's Wait.
+func c03Jobs(tier string) []Job {
+	bound := 3
+	if tier == "thorough" {
+		bound = 4
+	}
+	cfg := Cfg{NumCounters: 16, MaxCost: 3, BufferItems: 2, SetBuf: 3, TTLTick: 2, BucketSecs: 1}
+	sttl := func(k int, ms int64) Op { return Op{K: "setttl", Key: k, Cost: 1, TTL: ms} }
+	setup := []Op{sttl(1, 1000), {K: "set", Key: 257, Cost: 1}, {K: "wait"}, {K: "advance", N: 3000}}
+	var jobs []Job
+	for i, w := range [][]Op{{{K: "set", Key: 1, Cost: 1}}, {sttl(1, 10000)}, {{K: "set", Key: 1, Cost: 1}, {K: "set", Key: 2, Cost: 1}}} {
+		sc := &Scenario{Name: fmt.Sprintf("dfs/sweep|overwrite%d", i), Cfg: cfg, Setup: cp(setup), Threads: [][]Op{{{K: "tick"}}, cp(w)}, Epilogue: []Op{{K: "wait"}, {K: "remaining"}}}
+		jobs = append(jobs, Job{Scenario: sc, Bound: bound})
+	}
+	return jobs
+}
+
+func c03DFSOracle(x *Exec, res *vsched.Result, job *Job) []Viol {
+	d := x.AfterEpi
+	if d == nil || d.SetBuf != 0 {
+		return nil
+	}
+	var out []Viol
+	var sum int64
+	acc := map[uint64]bool{}
+	for _, c := range d.Costs {
+		sum += c.Cost
+		acc[c.Key] = true
+	}
+	if sum != d.Used {
+		out = append(out, Viol{Key: "C03/used-differs-from-sum-of-costs", What: fmt.Sprintf("accounted total %d but the per-key costs sum to %d", d.Used, sum)})
+	}
+	for _, e := range d.Store {
+		if !acc[e.Key] {
+			out = append(out, Viol{Key: "C03/resident-key-not-accounted", What: fmt.Sprintf("after the final Wait key %d (value %d) is resident but its cost is not accounted", e.Key, e.Value)})
+		}
+	}
+	for _, e := range res.Events {
+		if e.Kind == evRemaining && e.A != d.MaxCost-sum {
+			out = append(out, Viol{Key: "C03/remainingcost-not-maxcost-minus-costs", What: fmt.Sprintf("RemainingCost()=%d but MaxCost %d minus the accounted costs %d is %d", e.A, d.MaxCost, sum, d.MaxCost-sum)})
+		}
+	}
+	return out
+}
+
 func c03Seq(tier string) []SeqJob {
 	var out []SeqJob
 	add := func(name string, s *SeqSpec, secs float64) { out = append(out, SeqJob{Name: name, Spec: s, Seconds: secs}) }
 	if tier == "quick" {
+		add("seq/unequal-costs+gets/max2/depth7", c03FromC13(c13EvictSpec(7)), 40)
 		add("seq/lean/max2/3keys/depth7", c03LeanSpec(7, 2), 40)
 		add("seq/lean/max3/4keys/depth7", c03LeanSpec(7, 3), 40)
 	} else {
+		add("seq/unequal-costs+gets/max2/depth10", c03FromC13(c13EvictSpec(10)), 560)
 		add("seq/lean/max2/3keys/depth10", c03LeanSpec(10, 2), 560)
 		add("seq/lean/max3/4keys/depth10", c03LeanSpec(10, 3), 560)
 	}
@@ -320,6 +392,16 @@ func c13Jobs(tier string) []Job {
 	var jobs []Job
 	set := func(k int) Op { return Op{K: "set", Key: k, Cost: 1} }
 	cfg := Cfg{NumCounters: 16, MaxCost: 2, BufferItems: 2, SetBuf: 2, TTLTick: 2, BucketSecs: 1}
+	// the expiry sweep racing an overwrite of the expiring key
+	{
+		tcfg := cfg
+		tcfg.MaxCost = 3
+		setupT := []Op{{K: "setttl", Key: 1, Cost: 1, TTL: 1000}, set(257), {K: "wait"}, {K: "advance", N: 3000}}
+		for i, w := range [][]Op{{set(1)}, {{K: "setttl", Key: 1, Cost: 1, TTL: 10000}}} {
+			sc := &Scenario{Name: fmt.Sprintf("dfs/sweep|overwrite%d", i), Cfg: tcfg, Setup: cp(setupT), Threads: [][]Op{{{K: "tick"}}, cp(w)}, Epilogue: []Op{{K: "wait"}}}
+			jobs = append(jobs, Job{Scenario: sc, Bound: bound + 1})
+		}
+	}
 	// Clear racing a Set of a new key (bound 1: Clear takes every shard lock)
 	for i, w := range [][]Op{{set(2)}, {set(257), set(2)}, {{K: "del", Key: 1}, set(2)}} {
 		sc := &Scenario{Name: fmt.Sprintf("dfs/clear|writer%d", i), Cfg: cfg, Setup: []Op{set(1), {K: "wait"}}, Threads: [][]Op{{{K: "clear"}}, cp(w)}, Epilogue: []Op{{K: "wait"}}}
@@ -466,9 +548,28 @@ func c17Spec(sb int, maxCost int64, keys []int, depth int, ttl bool) *SeqSpec {
 	}
 }
 
+// c17GetPressure: Get buffers of one key and a policy goroutine that is never scheduled unless
+// the search decides so: the batch channel (3 slots) fills up and Get batches are refused.
+func c17GetPressure(depth int) *SeqSpec {
+	alpha := []Op{{K: "get", Key: 1}, {K: "get", Key: 2}, {K: "set", Key: 1, Cost: 1}}
+	return &SeqSpec{
+		Cfg:      Cfg{NumCounters: 16, MaxCost: 2, BufferItems: 1, SetBuf: 3, Metrics: true},
+		MaxDepth: depth,
+		Alphabet: func(r *SeqRun) []Op { return alpha },
+		Oracle:   c17Oracle,
+		Abstract: c17Abstract,
+		Probe:    func(c seqCache, r *SeqRun) { r.Probe["remaining"] = c.Remaining() },
+	}
+}
+
 func c17Seq(tier string) []SeqJob {
 	var out []SeqJob
 	add := func(name string, s *SeqSpec, secs float64) { out = append(out, SeqJob{Name: name, Spec: s, Seconds: secs}) }
+	if tier == "quick" {
+		add("seq/get-back-pressure/bufferitems1/depth8", c17GetPressure(8), 40)
+	} else {
+		add("seq/get-back-pressure/bufferitems1/depth11", c17GetPressure(11), 560)
+	}
 	if tier == "quick" {
 		add("seq/setbuf1/max2/2keys/depth6", c17Spec(1, 2, []int{1, 2}, 6, false), 40)
 		add("seq/setbuf3/max2/2keys/ttl/depth4", c17Spec(3, 2, []int{1, 2}, 4, true), 40)
@@ -553,8 +654,10 @@ func init() {
 	registerProp(&Prop{ID: "C03", Level: "model_checking",
 		Rule: "explicit-state BFS over single-client histories {Set(k,c) for c in {0 via Config.Cost,1,2,MaxCost,MaxCost+1}, Del, Get, UpdateMaxCost(+2), Wait} x every applier / policy step x every rotation of the sampling map's order, MaxCost 3/4, with and without the internal per-item cost, on the real cache; " +
 			"oracle on every state: used == sum of per-key costs; RemainingCost() == MaxCost() - that sum; an applier step that admits a key leaves used <= MaxCost and never admits cost > MaxCost; in histories without a cost-raising update or a lowering of MaxCost every drained state has RemainingCost() >= 0",
-		Assume: []string{"single client; costs from the listed alphabet"},
+		Assume: []string{"single client in the history search; costs from the listed alphabet", "the reported room is judged against the costs of the RESIDENT keys: a stored key that is not accounted is a violation"},
 		Seq:    c03Seq,
+		Jobs:   c03Jobs,
+		Oracle: c03DFSOracle,
 	})
 	registerProp(&Prop{ID: "C13", Level: "model_checking",
 		Rule: "explicit-state BFS over histories {Set, SetWithTTL, Del, Clear, Wait, clock advance, tick} x every applier step (write-buffer sizes 1-3 => buffer-full drops; MaxCost 2-3 => evictions / rejections), collision-free keys, + preemptive DFS of two writers; " +
